@@ -77,13 +77,13 @@ func nxAction(c *C, e *N, f *Frame) {
 		c.U(e, "Nbits", 2)
 		c.U(e, "SrcOfs", 2)
 		c.U(e, "DstOfs", 2)
-		c.U(e, "SrcField", 4)
+		c.URole(e, "SrcField", 4, "type")
 		c.checkHeaderWord("src", e.U["SrcField"])
-		c.U(e, "DstField", 4)
+		c.URole(e, "DstField", 4, "type")
 		c.checkHeaderWord("dst", e.U["DstField"])
 	case "nx_reg_load":
 		c.U(e, "OfsNbits", 2)
-		c.U(e, "DstReg", 4)
+		c.URole(e, "DstReg", 4, "type")
 		c.checkHeaderWord("dst", e.U["DstReg"])
 		c.U(e, "Value", 8)
 	case "nx_note":
@@ -95,7 +95,7 @@ func nxAction(c *C, e *N, f *Frame) {
 		return
 	case "nx_output_reg":
 		c.U(e, "OfsNbits", 2)
-		c.U(e, "SrcField", 4)
+		c.URole(e, "SrcField", 4, "type")
 		c.checkHeaderWord("src", e.U["SrcField"])
 		c.U(e, "MaxLen", 2)
 		c.Pad(6)
@@ -161,7 +161,7 @@ func nxAction(c *C, e *N, f *Frame) {
 		c.U(e, "ID", 4)
 	case "nx_ct":
 		c.U(e, "Flags", 2)
-		c.U(e, "ZoneSrc", 4)
+		c.URole(e, "ZoneSrc", 4, "type")
 		if e.U["ZoneSrc"] != 0 {
 			c.checkHeaderWord("zone_src", e.U["ZoneSrc"])
 		}
@@ -225,12 +225,12 @@ func learnSpec(c *C, e *N) {
 	if e.U["Src"] == 1 {
 		c.B(e, "SrcValue", int(2*((e.U["Nbits"]+15)/16)))
 	} else {
-		c.U(e, "SrcField", 4)
+		c.URole(e, "SrcField", 4, "type")
 		c.checkHeaderWord("learn src", e.U["SrcField"])
 		c.U(e, "SrcOfs", 2)
 	}
 	if e.U["Dst"] != 2 {
-		c.U(e, "DstField", 4)
+		c.URole(e, "DstField", 4, "type")
 		c.checkHeaderWord("learn dst", e.U["DstField"])
 		c.U(e, "DstOfs", 2)
 	}
